@@ -405,6 +405,10 @@ def build_unit(scratch, name, unit, force_stub=None):
                 raise Undecided("lost anchor: const %s" % it["name"])
             parts.append(re.sub(r"^[ \t]*(pub(\([^)]*\))?\s+)?", "pub ", src[cm.start():cm.end()]) + "\n")
         elif it["kind"] == "verbatim":
+            # a verbatim item may be a CLIENT lemma written here (not extracted): `fn_name` makes it an obligation of its own
+            if it.get("fn_name"):
+                start = sum(p.count("\n") for p in parts) + 1
+                fn_lines[it["fn_name"]] = (start, start + it["text"].count("\n"))
             parts.append(it["text"])
         elif it["kind"] == "index_impl_check":
             # R8: the Index impl we bypass must be exactly `&self.0[index]`
